@@ -6,11 +6,14 @@
 cd "$(dirname "$0")/.." || exit 2
 D=/tmp/verif-cover; rm -rf $D; mkdir -p $D
 export VERIF_COVER=1 GOCOVERDIR=$D VERIF_NOEVIDENCE=1 GOFLAGS=-mod=mod GOPROXY=off GOSUMDB=off GOTOOLCHAIN=local
-for p in C01 C02 C03 C04 C05 C06 C07 C08 C09 C10 C11 C12 C13 C14 C15 C16 C17 C18 C19 C20 G01 G02 G03 G04 G05 G06 G07 G08; do
+for p in C01 C02 C03 C04 C05 C06 C07 C08 C09 C10 C11 C12 C13 C14 C15 C16 C17 C18 C19 C20 G01 G02 G03 G04 G05 G06 G07 G08 G09; do
   ./check $p | tail -1
 done
 OUT=${1:-selftest/coverage.txt}
 go tool covdata func -i=$D | grep "^github.com/pion/rtp\|^total" | grep -v "_verif.go\|verif_export.go" > $OUT
-tail -1 $OUT
+# the blocks never executed (file:from,to statements count)
+go tool covdata textfmt -i=$D -o $D/prof.txt
+grep "^github.com/pion/rtp" $D/prof.txt | grep -v "_verif.go\|verif_export.go" | awk '$NF==0 {print $1, $2}' | sort -u > ${OUT%.txt}_unreached.txt
+wc -l ${OUT%.txt}_unreached.txt
 go tool covdata percent -i=$D | grep "pion/rtp"
 rm -rf $D
